@@ -639,8 +639,7 @@ class RandomVariables(CollectionsSequence, Immutable):
                                 Matrix(mean),
                                 Matrix(variance),
                             )
-                if keep is not None:
-                    newdists.append(keep)
+                        newdists.append(keep)
             else:
                 newdists.append(dist)
         new_rvs = RandomVariables(tuple(newdists), self._eta_levels, self._epsilon_levels)
